@@ -108,6 +108,34 @@ pub open spec fn v4l_plain(token: Seq<char>, k: Seq<u8>) -> Seq<u8> {
 pub open spec fn v4l_token(k: Seq<u8>, n: Seq<u8>, m: Seq<u8>, f: Seq<u8>, i: Seq<u8>) -> Seq<char> {
     token_text("v4.local."@, v4l_payload(k, n, m, f, i), f)
 }
-}
-}
 
+// ---- v3.local ----------------------------------------------------------------------------------
+pub open spec fn v3l_header() -> Seq<u8> { "v3.local.".spec_bytes() }
+pub open spec fn v3l_tmp(k: Seq<u8>, n: Seq<u8>) -> Seq<u8> { hkdf_sha384(Seq::empty(), k, sep_ek() + n, 48) }
+pub open spec fn v3l_ek(k: Seq<u8>, n: Seq<u8>) -> Seq<u8> { v3l_tmp(k, n).subrange(0, 32) }
+pub open spec fn v3l_n2(k: Seq<u8>, n: Seq<u8>) -> Seq<u8> { v3l_tmp(k, n).subrange(32, 48) }
+pub open spec fn v3l_ak(k: Seq<u8>, n: Seq<u8>) -> Seq<u8> { hkdf_sha384(Seq::empty(), k, sep_ak() + n, 48) }
+pub open spec fn v3l_c(k: Seq<u8>, n: Seq<u8>, m: Seq<u8>) -> Seq<u8> { aes256_ctr_xor(v3l_ek(k, n), v3l_n2(k, n), m) }
+pub open spec fn v3l_pre(n: Seq<u8>, c: Seq<u8>, f: Seq<u8>, i: Seq<u8>) -> Seq<u8> { pae(seq![v3l_header(), n, c, f, i]) }
+pub open spec fn v3l_tag(k: Seq<u8>, n: Seq<u8>, c: Seq<u8>, f: Seq<u8>, i: Seq<u8>) -> Seq<u8> {
+    hmac_sha384(v3l_ak(k, n), v3l_pre(n, c, f, i))
+}
+pub open spec fn v3l_payload(k: Seq<u8>, n: Seq<u8>, m: Seq<u8>, f: Seq<u8>, i: Seq<u8>) -> Seq<u8> {
+    n + v3l_c(k, n, m) + v3l_tag(k, n, v3l_c(k, n, m), f, i)
+}
+pub open spec fn v3l_token(k: Seq<u8>, n: Seq<u8>, m: Seq<u8>, f: Seq<u8>, i: Seq<u8>) -> Seq<char> {
+    token_text("v3.local."@, v3l_payload(k, n, m, f, i), f)
+}
+pub open spec fn v3l_accept_cond(token: Seq<char>, k: Seq<u8>, f: Seq<u8>, i: Seq<u8>) -> bool {
+    &&& token_parts_ok(token, "v3.local."@, f)
+    &&& token_payload(token).len() >= 80
+    &&& ({ let d = token_payload(token);
+           d.subrange(d.len() - 48, d.len() as int) == v3l_tag(k, d.subrange(0, 32), d.subrange(32, d.len() - 48), f, i) })
+}
+pub open spec fn v3l_plain(token: Seq<char>, k: Seq<u8>) -> Seq<u8> {
+    let d = token_payload(token);
+    let n = d.subrange(0, 32);
+    aes256_ctr_xor(v3l_ek(k, n), v3l_n2(k, n), d.subrange(32, d.len() - 48))
+}
+}
+}
